@@ -4,7 +4,7 @@
 From LolModel Require Import Base Selectors.
 From LolSpec Require Import CssSem.
 From LolModel Require Import Machine Rewriter.
-From LolProofs Require Import Css CssPred StackTree Bailout TypedCounters AstSem SelLR.
+From LolProofs Require Import Css CssPred StackTree Bailout TypedCounters AstSem SelLR Frontier VmExec CompileRepr VmStack VmRun.
 From Coq Require Import List.
 Import ListNotations.
 From Coq Require Import ZArith Lia.
@@ -96,6 +96,62 @@ Theorem C04_left_to_right_matching_is_css_matching :
   forall sel x anc, sel_matches_lr sel (rev anc ++ [x]) = selector_matches sel x anc.
 Proof. exact selector_lr_is_css. Qed.
 
+(* Compiler::compile_nodes lays every AST out so that each node is represented by its instruction: siblings contiguous,
+   jumps = the range of the children, hereditary jumps = the range of the descendant branches (every AST, any depth). *)
+Theorem C04_compiled_program_represents_the_ast :
+  forall root, rrange (compile root) (pr_entry (compile root)) root.
+Proof. exact compile_represents_ast. Qed.
+
+(* END TO END.  For every non-empty list of selectors with their handlers, every sequence of start tags (namespace,
+   attributes, self-closing flag) and end tags -- mis-nested, stray, void, foreign self-closing -- run through the
+   rewriter's controller from its initial state (AST built by Ast::add_selector, compiled by Compiler::compile_nodes,
+   executed by the stack VM with entry points, jumps, hereditary jumps, attribute bail-out and recovery, sibling and typed
+   counters), and every further start tag: the ids handed to start_matching (the finish_exec call that produces the
+   next state) are exactly the indices of the selectors that CssSem.selector_matches selects for the new element in the tree
+   induced by the explicit tags, with its ancestors innermost first.  Hypotheses: no element has 2^31-1 children; sel_ok =
+   the side conditions of C04_predicate_decides_compound (excludes :not() with compound arguments: known finding). *)
+Theorem C04_selector_vm_is_css_matching :
+  forall sels docs bail fa isz mx ext ops c name n avs sc c',
+  sels <> [] ->
+  never_wraps_a (mkTree [] []) (ops ++ [OpStart name n avs sc]) ->
+  vm_run (new_rwc sels docs bail fa isz mx) ext ops = Some c -> vm_on_start c ext name n avs sc = Some c' ->
+  let t := tree_run_a (mkTree [] []) ops in
+  let el := fst (on_start t name n (pairs avs) sc) in
+  let anc := map o_el (t_open t) in
+  Forall (fun sel => sel_ok sel (rev anc ++ [el])) (map sh_selector sels) ->
+  exists c1 ec' f, finish_exec c1 ext ec' = (c', FOk f) /\ r_locators c1 = r_locators c /\ ec_with_content ec' = stays_open name n sc /\
+    forall i, In i (ed_matched (si_data (ec_item ec'))) <->
+              exists sh, nth_error sels i = Some sh /\ selector_matches (sh_selector sh) el anc = true.
+Proof. exact selector_vm_is_css. Qed.
+(* the invariant behind it, for every reachable state: each open element's stack item holds the AST frontier
+   (jumps = children of the nodes matched there, hereditary jumps = their descendant branches, matched ids = their ids) *)
+Theorem C04_stack_items_hold_the_ast_frontier :
+  forall prog root ext ops c t c',
+  Inv prog root c t -> never_wraps_a t ops -> vm_run c ext ops = Some c' -> Inv prog root c' (tree_run_a t ops).
+Proof. exact run_keeps_inv. Qed.
+
+(* non-vacuity: "div > p.x, [id]" and "section p:not(.y)" on <section><DIV><p class=x id=k>: the hypotheses hold, the run exists *)
+Definition ex_s0 : selector := [mkComplex [SType (bs "div")] [(Child, [SType (bs "p"); SClass (bs "x")])]; mkComplex [SAttrExists (bs "id")] []].
+Definition ex_s1 : selector := [mkComplex [SType (bs "section")] [(Descendant, [SType (bs "p"); SNot [[SClass (bs "y")]]])]].
+Definition ex_sels := [mkSH ex_s0 (Some []) None None; mkSH ex_s1 (Some []) None None].
+Definition ex_ops := [OpStart (bs "section") Html [] false; OpStart (bs "DIV") Html [] false].
+Definition ex_avs := [mkAV (bs "class") (bs "x") [] None; mkAV (bs "id") (bs "k") [] None].
+Definition ex_t := tree_run_a (mkTree [] []) ex_ops.
+Definition ex_el := fst (on_start ex_t (bs "p") Html (pairs ex_avs) false).
+Definition ex_runs : bool :=
+  match vm_run (new_rwc ex_sels [] [] None 96 10000) 0 ex_ops with
+  | Some c => match vm_on_start c 0 (bs "p") Html ex_avs false with Some _ => true | None => false end
+  | None => false end.
+Example C04_end_to_end_example :
+  ex_sels <> [] /\ never_wraps_a (mkTree [] []) (ex_ops ++ [OpStart (bs "p") Html ex_avs false]) /\ ex_runs = true /\
+  Forall (fun sel => sel_ok sel (rev (map o_el (t_open ex_t)) ++ [ex_el])) (map sh_selector ex_sels) /\
+  selector_matches ex_s0 ex_el (map o_el (t_open ex_t)) = true /\ selector_matches ex_s1 ex_el (map o_el (t_open ex_t)) = true.
+Proof.
+  split; [discriminate|]. split; [vm_compute; repeat split|]. split; [vm_compute; reflexivity|]. split; [|split; vm_compute; reflexivity].
+  let c := eval vm_compute in (rev (map o_el (t_open ex_t)) ++ [ex_el]) in change (rev (map o_el (t_open ex_t)) ++ [ex_el]) with c.
+  repeat constructor. all: try (vm_compute; discriminate).
+Qed.
+
 (* Attribute bail-out and recovery (entry points, the parent's jumps, hereditary jumps, at any offset): running without
    attributes, bailing out, and resuming with attributes computes exactly what one execution with attributes computes,
    for every program, stack, element and attribute list. *)
@@ -129,3 +185,6 @@ Print Assumptions C04_vm_stack_and_counters_follow_the_tree.
 Print Assumptions C04_sibling_indices_are_the_positions_in_the_tree.
 Print Assumptions C04_ast_denotes_the_selector_list.
 Print Assumptions C04_left_to_right_matching_is_css_matching.
+Print Assumptions C04_compiled_program_represents_the_ast.
+Print Assumptions C04_selector_vm_is_css_matching.
+Print Assumptions C04_stack_items_hold_the_ast_frontier.
